@@ -59,7 +59,8 @@ var sigTime = time.Unix(1700000000, 0)
 type docStore struct {
 	mu          sync.RWMutex
 	m           map[string]*did.Document
-	deactivated map[string]bool // latest version is deactivated: resolves only with AllowDeactivated (as the did:nuts store)
+	deactivated map[string]bool  // latest version is deactivated: resolves only with AllowDeactivated (as the did:nuts store)
+	fail        map[string]error // resolution of this DID fails with the given error
 }
 
 func (d *docStore) Resolve(id did.DID, md *resolver.ResolveMetadata) (*did.Document, *resolver.DocumentMetadata, error) {
@@ -68,6 +69,9 @@ func (d *docStore) Resolve(id did.DID, md *resolver.ResolveMetadata) (*did.Docum
 	doc, ok := d.m[id.String()]
 	if !ok {
 		return nil, nil, resolver.ErrNotFound
+	}
+	if err := d.fail[id.String()]; err != nil {
+		return nil, nil, err
 	}
 	if d.deactivated[id.String()] && (md == nil || !md.AllowDeactivated) {
 		return nil, nil, resolver.ErrDeactivated
@@ -82,6 +86,15 @@ func (d *docStore) setDeactivated(id did.DID, v bool) {
 		d.deactivated = map[string]bool{}
 	}
 	d.deactivated[id.String()] = v
+	d.mu.Unlock()
+}
+
+func (d *docStore) setFail(id did.DID, err error) {
+	d.mu.Lock()
+	if d.fail == nil {
+		d.fail = map[string]error{}
+	}
+	d.fail[id.String()] = err
 	d.mu.Unlock()
 }
 
@@ -178,6 +191,56 @@ type world struct {
 	all  []*txInfo // every transaction the harness ever built (markers to scan for)
 	byH  map[hash.SHA256Hash]*txInfo
 	n    int
+
+	// taint scan index over the patterns of every txInfo in all (same verdicts as bytes.Contains per pattern, one pass)
+	patFilter [8192]byte                          // bitset over the first two bytes of every pattern
+	patByHead map[uint16][]patRef                 // first two bytes -> patterns
+	parsed    map[hash.SHA256Hash]dag.Transaction // transactions parsed from captured list entries, by sha256 of the entry data
+}
+
+type patRef struct {
+	t   *txInfo
+	pat []byte
+}
+
+// track adds a transaction (or a payload about to become one) to the set of markers the taint scan looks for.
+func (w *world) track(ti *txInfo) {
+	ti.patterns = encodings(ti.payload)
+	w.all = append(w.all, ti)
+	if ti.aliasOf != nil {
+		return // same bytes as aliasOf
+	}
+	if w.patByHead == nil {
+		w.patByHead = map[uint16][]patRef{}
+	}
+	for _, pat := range ti.patterns {
+		if len(pat) < 2 {
+			panic("marker pattern too short")
+		}
+		h := uint16(pat[0])<<8 | uint16(pat[1])
+		w.patFilter[h>>3] |= 1 << (h & 7)
+		w.patByHead[h] = append(w.patByHead[h], patRef{ti, pat})
+	}
+}
+
+// scan returns the tracked transactions of which a payload encoding occurs in wire.
+func (w *world) scan(wire []byte) map[*txInfo]bool {
+	var hits map[*txInfo]bool
+	for i := 0; i+1 < len(wire); i++ {
+		h := uint16(wire[i])<<8 | uint16(wire[i+1])
+		if w.patFilter[h>>3]&(1<<(h&7)) == 0 {
+			continue
+		}
+		for _, p := range w.patByHead[h] {
+			if bytes.HasPrefix(wire[i:], p.pat) {
+				if hits == nil {
+					hits = map[*txInfo]bool{}
+				}
+				hits[p.t] = true
+			}
+		}
+	}
+	return hits
 }
 
 func encodings(m []byte) [][]byte {
@@ -218,8 +281,7 @@ func encryptFor(plain []did.DID, keys ...*ecdsa.PublicKey) [][]byte {
 }
 
 func (w *world) register(ti *txInfo) *txInfo {
-	ti.patterns = encodings(ti.payload)
-	w.all = append(w.all, ti)
+	w.track(ti)
 	w.byH[ti.tx.Ref()] = ti
 	return ti
 }
@@ -474,19 +536,12 @@ func (n *node) onSend(c *pconn, envelope interface{}) error {
 	n.r.Count("bytes_scanned", len(wire))
 
 	// taint scan over the wire bytes
+	hits := n.w.scan(wire)
+	n.r.Count("marker_scans", len(n.w.all))
 	for _, t := range n.w.all {
-		if t.aliasOf != nil {
-			continue // same bytes as aliasOf, which is the transaction whose participant list decides
-		}
-		hit := false
-		for _, pat := range t.patterns {
-			if bytes.Contains(wire, pat) {
-				hit = true
-				break
-			}
-		}
-		n.r.Count("marker_scans", 1)
-		if !hit {
+		// (a transaction re-using the payload hash of another one, aliasOf, is not tracked itself: same bytes, and the
+		// participant list of aliasOf decides)
+		if !hits[t] {
 			continue
 		}
 		if !t.private {
@@ -530,10 +585,18 @@ func (n *node) onSend(c *pconn, envelope interface{}) error {
 	// structure: a transaction list never carries a payload for a transaction with a PAL (whatever the payload bytes are)
 	if tl := cp.GetTransactionList(); tl != nil {
 		for _, e := range tl.Transactions {
-			tx, err := dag.ParseTransaction(e.Data)
-			if err != nil {
-				n.r.Violation("C15/list/unparsable-transaction", "node sent a TransactionList entry that does not parse: "+err.Error(), nil)
-				continue
+			dk := hash.SHA256Sum(e.Data)
+			tx := n.w.parsed[dk]
+			if tx == nil {
+				var err error
+				if tx, err = dag.ParseTransaction(e.Data); err != nil {
+					n.r.Violation("C15/list/unparsable-transaction", "node sent a TransactionList entry that does not parse: "+err.Error(), nil)
+					continue
+				}
+				if n.w.parsed == nil {
+					n.w.parsed = map[hash.SHA256Hash]dag.Transaction{}
+				}
+				n.w.parsed[dk] = tx
 			}
 			n.r.Count("list_entries_inspected", 1)
 			if len(tx.PAL()) > 0 {
